@@ -9,7 +9,7 @@ CHECKS = {
  "C01": ("proptest generated source trees; oracle: independent text-splice model + reassembly of cold / warm / after-map() chunk streams, source() re-asked on the streamed object after every round",
          "Generated-input search (multi-byte trees, wild sorted maps, replacement pools incl. beyond-end) against a reference model of source(); every chunk of every stream must carry text and the chunks must reassemble. Exploration: shows the property on every generated tree and history, not on all.",
          "Trusts the harness's splice model (spec::splice_text) and its tree builder; known finding W2 (char vs byte columns) is tolerated only in its exact shape."),
- "C02": ("proptest generated ASCII trees; oracle: true (line, column) of every byte from a scan of the reference text, in all four (columns, final_source) modes, on fresh objects and on one object cold / warm / after map(); thorough: libFuzzer+ASan target tree_c02 (bytes -> tree -> same oracle)",
+ "C02": ("proptest generated ASCII trees; oracle: true (line, column) of every byte from a scan of the reference text, in all four (columns, final_source) modes, on fresh objects, on one object cold / warm / after map(), and on an object observed while under construction; thorough: libFuzzer+ASan target tree_c02 (bytes -> tree -> same oracle)",
          "Every reported chunk position and the returned end information are compared with positions computed from the reference text; final-source mode is reached through the verif::map_options hook.",
          "Trusts observe::positions and the reference text model."),
  "C03": ("proptest generated ASCII trees; differential: normal-mode chunk stream vs map() decoded by the harness's own VLQ decoder, per byte / per line, on fresh objects and on one object in every order of stream / map / other column setting; thorough: libFuzzer+ASan target tree_c03",
